@@ -186,11 +186,18 @@ theorem codeVal_eq_runVal (ρ : Nat → Word) (e : CExpr) (hs : FoldSafe e) : co
     have hsl : FoldSafe l := hs.1
     have hsr : FoldSafe r := hs.2.1
     simp only [codeVal]
-    by_cases hrw : rewritten op = true
-    · simp only [hrw, if_true, runVal, ihl hsl, ihr hsr]
-    · simp only [hrw]
-      cases hc : constVal (.bin op l r) with
-      | none => simp [runVal, ihl hsl, ihr hsr]
-      | some c => simp [runVal_of_const ρ (.bin op l r) c hc hs]
+    cases hl : constVal l with
+    | none => simp only [runVal, ihl hsl, ihr hsr]
+    | some a =>
+      cases hr : constVal r with
+      | none => simp only [runVal, ihl hsl, ihr hsr]
+      | some b =>
+        simp only []
+        by_cases hrw : rewritten op = true
+        · simp only [hrw, if_true, runVal, runVal_of_const ρ l a hl hsl, runVal_of_const ρ r b hr hsr]
+        · have hc : constVal (.bin op l r) = some (foldBin op a b) := by simp [constVal, hl, hr]
+          simp only [hrw]
+          rw [runVal_of_const ρ (.bin op l r) _ hc hs]
+          simp
 
 end Hex.Xcmp
